@@ -16,7 +16,7 @@ def rnd_payload(rnd, sid, alphabet=None):
     """payload bytes of a sliced line; the values avoid 0x00/0x80 so that no byte of a data unit can
     complete a forged 00 00 01 start code (a transmitter cannot rule that out, a test stream can)"""
     n = PAYLEN[sid]
-    vals = alphabet or [b for b in range(2, 256) if b not in (0x80, 0x40, 0x01)]
+    vals = alphabet or [b for b in range(2, 256) if b not in (0x80, 0x40, 0x01, 0x47, 0xE2)]     # 0x47 / rev8(0x47): no forged TS sync byte
     d = [rnd.choice(vals) for _ in range(n)]
     if sid == WSS:
         d[1] &= 0x3F
@@ -115,3 +115,117 @@ def real_stream(drv, cfg, frames):
 def sent_frame(lines, pts):
     """a frame as given to the multiplexer (the trace specs normalise ids / reserved bits themselves)"""
     return dict(pts=list(pts), lines=[dict(line=l["line"], id=l["id"], data=list(l["data"])) for l in lines if l["id"] != RAW])
+
+
+# ---------------------------------------------------------------- C07: frame sequences and damage
+def rnd_frames(rnd, n, max_ttx=5, line0=0.0, first_lines=(7, 7, 8, 10, 12, 15)):
+    """n frames whose boundaries a receiver can recognise: the first line of a frame is not above the last
+    line of its predecessor (EN 301 775 4.1: lines ascend within a frame).  line0: probability of an extra
+    Teletext line with undefined line number behind the first line.  Returns [(lines, (pts_hi, pts_lo))]"""
+    out = []
+    base = rnd.randrange(1 << 20)
+    while len(out) < n:
+        fr = rnd_frame(rnd, max_ttx=max_ttx, first_lines=first_lines)
+        if out and fr[0]["line"] > max(l["line"] for l in out[-1][0]):
+            continue
+        if line0 and rnd.random() < line0:
+            fr.insert(1, dict(line=0, id=TTX, data=rnd_payload(rnd, TTX)))
+        k = len(out)
+        out.append((fr, ((base + k) % 8, (base * 3600 + 3600 * k) % (1 << 30))))
+    return out
+
+
+SAFE = [b for b in range(2, 256) if b not in (0x47, 0xBD)]      # overwriting with these forges no start code / sync byte
+
+
+def damage(rnd, packets, d, kind, off, ln, ts):
+    """packets: the byte lists the multiplexer emitted per frame (PES packet, or the TS packets of one PES
+    packet).  Damage inside packets[d]: 'drop' ln bytes from offset off, 'over'write them, 'dup'licate the ln
+    bytes before off, 'swap' two neighbouring TS packets (ts only).  Returns (stream, rec) where rec says
+    whether the property's recovery clause applies with `frames after d, all but the first`: it does not
+    when the damage makes the PES_packet_length field claim more than the packet that follows (a receiver
+    has to trust that field) or removes more bytes than the shortest packet has."""
+    a = sum(len(p) for p in packets[:d])
+    e = a + len(packets[d])
+    st = [b for p in packets for b in p]
+    off = min(off, e - a - 1)
+    p = a + off
+    ln = max(1, min(ln, e - p))
+    plen_at = (a + 4 + 4, a + 4 + 6) if ts else (a + 4, a + 6)       # PES_packet_length
+    rec = True
+    if kind == "drop":
+        out = st[:p] + st[p + ln:]
+        touched = (p, p + ln)
+        if ln >= 184:
+            rec = False
+    elif kind == "over":
+        out = st[:p] + [rnd.choice(SAFE) for _ in range(ln)] + st[p + ln:]
+        touched = (p, p + ln)
+    elif kind == "dup":
+        src = st[max(a, p - ln):p]
+        out = st[:p] + src + st[p:]
+        touched = (p, p)
+        if plen_at[0] - 4 < p < plen_at[1]:
+            rec = False               # inserted between start code and PES_packet_length: the field reads other bytes
+    elif kind == "swap":
+        q = a + 188 * (off // 188)
+        if q + 376 > e:
+            q = a
+        out = st[:q] + st[q + 188:q + 376] + st[q:q + 188] + st[q + 376:]
+        touched = (q, q + 376)
+    else:
+        raise ValueError(kind)
+    if touched[0] < plen_at[1] and touched[1] > plen_at[0]:
+        rec = False
+    return out, rec
+
+
+def demux_script(stream, ts, pid, plan):
+    """plan = (iface 'cb'|'cor', maxl, chunks, reset_after) -> driver commands; reset_after: number of leading
+    chunks after which vbi_dvb_demux_reset() is called and the stream starts again"""
+    iface, maxl, chunks, reset_after = plan
+    cmd = "F " if iface == "cb" else "C "
+    s = ["S " + hexs(stream), "O %s %s %d %d" % ("ts" if ts else "pes", iface, pid, maxl)]
+    if reset_after:
+        s.append(cmd + " ".join(map(str, chunks[:reset_after])))
+        s.append("Z")
+        chunks = chunks[reset_after:]
+    s.append(cmd + " ".join(map(str, chunks)))
+    return s
+
+
+def rnd_partition(rnd, n, style):
+    """chunk sizes summing to n"""
+    out = []
+    left = n
+    while left > 0:
+        if style == "tiny":
+            k = rnd.randint(1, 4)
+        elif style == "small":
+            k = rnd.randint(1, 60)
+        elif style == "packet":
+            k = rnd.choice([183, 184, 185, 187, 188, 189, 46, 47, 48, 10, 9, 197, 196, 368])
+        elif style == "mixed":
+            k = rnd.choice([1, 1, 2, 3, 7, 45, 46, 47, 48, 49, 178, 184, 188, 200, 400, 1000])
+        else:
+            k = rnd.randint(1, max(1, n))
+        k = min(k, left)
+        out.append(k)
+        left -= k
+    return out
+
+
+def sync_clean(b):
+    """TS stream in which 0x47 occurs at packet starts only (a receiver finds packet boundaries by that byte)"""
+    return all(i % 188 == 0 for i, x in enumerate(b) if x == 0x47)
+
+
+def real_frames_stream(drv, rnd, cfg, n, **kw):
+    """n recognisable frames and the packets the real multiplexer makes of them; TS streams are regenerated until
+    no header / time stamp / length byte imitates a sync byte"""
+    for _ in range(200):
+        frames = rnd_frames(rnd, n, **kw)
+        pk = real_stream(drv, cfg, frames)
+        if not cfg["ts"] or sync_clean([x for p in pk for x in p]):
+            return frames, pk
+    raise RuntimeError("no sync-clean stream found")
